@@ -70,6 +70,13 @@ func checkEncode(c encCase) (h.Info, error) {
 	}
 	dataCopy := append([]byte{}, data...)
 	got, err := bech32.Encode(hrp, data)
+	// the same call again (and once more) gives the same answer: a verdict must not depend on what
+	// the previous call with the same prefix left behind
+	for rep := 0; rep < 2; rep++ {
+		if g2, e2 := bech32.Encode(hrp, data); g2 != got || (e2 == nil) != (err == nil) {
+			return info, fmt.Errorf("Encode(%q, %x) returned (%q, %v) and, called again with the same arguments (repetition %d), (%q, %v)", hrp, data, got, err, rep+1, g2, e2)
+		}
+	}
 	if !bytes.Equal(data, dataCopy) {
 		return info, fmt.Errorf("Encode modified its input data")
 	}
